@@ -85,6 +85,11 @@ func newLab(nodeSeed byte) *lab {
 			}
 		}
 	}
+	// set-up of the bid external app (memos of their own: the bytes of the older set-up stay as they were)
+	bn := 0
+	bm := func() string { bn++; return fmt.Sprintf("labbid%d", bn) }
+	bidOwner, bidA, bidB, bidC := u2, u3, u1, u0
+	olt5, olt9 := oltAmt("5000000000000000000"), oltAmt("9000000000000000000")
 	blk()
 	blk()
 	blk(txPropCreate(u0, "lab_fund", governance.ProposalTypeGeneral, oltAmt("1000000000"), 60, 0, l.memo()),
@@ -93,16 +98,28 @@ func newLab(nodeSeed byte) *lab {
 		txDomainCreate(u0, "lab.ol", oltAmt("1002000000000000000000"), l.memo()),
 		txDomainCreate(u1, "sale.ol", oltAmt("1002000000000000000000"), l.memo()),
 		txDelegate(u1, oltAmt("250000000000000000"), l.memo()),
-		txStake(e0, oltAmt("500000"), l.memo()))
+		txStake(e0, oltAmt("500000"), l.memo()),
+		txDomainCreate(bidOwner, "bidlab.ol", oltAmt("1002000000000000000000"), bm()),
+		txDomainCreate(bidOwner, "bidnew.ol", oltAmt("1002000000000000000000"), bm()))
+	// three conversations about bidlab.ol, created at height 4: A keeps its bid offer, B gets a counter
+	// offer at height 5, C is the one the expire kind names
+	convA, convB, convC := bidConvID(bidOwner.Addr, "bidlab.ol", bidA.Addr, 4), bidConvID(bidOwner.Addr, "bidlab.ol", bidB.Addr, 4), bidConvID(bidOwner.Addr, "bidlab.ol", bidC.Addr, 4)
 	blk(txPropFund(u2, "lab_vote", oltAmt("9000000000"), l.memo()),
 		txDomainSell(u1, "sale.ol", oltAmt("5000000000000000000"), false, l.memo()),
 		txUnstake(v1, oltAmt("1000"), l.memo()),
 		txUndelegate(u1, oltAmt("1000000000"), l.memo()),
-		txDomainCreate(u0, "sub.lab.ol", oltAmt("1002000000000000000000"), l.memo()))
-	blk(txAllegation(v0, "labreq", v2.Val.Addr, 5, l.memo()))
+		txDomainCreate(u0, "sub.lab.ol", oltAmt("1002000000000000000000"), l.memo()),
+		txBidCreate(bidA, bidOwner.Addr, "bidlab.ol", bidOns, olt5, bidFar, bm()),
+		txBidCreate(bidB, bidOwner.Addr, "bidlab.ol", bidOns, olt5, bidFar, bm()),
+		txBidCreate(bidC, bidOwner.Addr, "bidlab.ol", bidOns, olt5, bidFar, bm()))
+	blk(txAllegation(v0, "labreq", v2.Val.Addr, 5, l.memo()),
+		txBidCounter(bidOwner, convB, olt9, bm()))
 	blk()
 	blk()
-	blk()
+	// a conversation whose deadline passes between this (the last set-up) block and the next one: the
+	// block after the set-up queues its expiry at BeginBlock and executes it at EndBlock
+	convD := bidConvID(bidOwner.Addr, "bidnew.ol", bidB.Addr, 8)
+	blk(txBidCreate(bidB, bidOwner.Addr, "bidnew.ol", bidOns, olt5, bidBlockTime(8)+7, bm()))
 	k := func(name string, victim Key, signers []Key, build func(memo string) []byte) {
 		l.Kinds = append(l.Kinds, labKind{Name: name, Build: build, Signers: signers, Victim: victim})
 	}
@@ -137,6 +154,22 @@ func newLab(nodeSeed byte) *lab {
 	k("ALLEGATION", v0.Val, one(v0.Val), func(m string) []byte { return txAllegation(v0, "labreq2", v1.Val.Addr, 8, m) })
 	k("ALLEGATION_VOTE", v1.Val, one(v1.Val), func(m string) []byte { return txAllegationVote(v1, "labreq", 2, m) })
 	k("RELEASE", v0.Val, one(v0.Val), func(m string) []byte { return txRelease(v0, m) })
+	// the bid external app (harness/txbid.go)
+	olt7, olt8 := oltAmt("7000000000000000000"), oltAmt("8000000000000000000")
+	k("BID_CREATE", bidA, one(bidA), func(m string) []byte { return txBidCreate(bidA, bidOwner.Addr, "bidnew.ol", bidOns, olt5, bidFar, m) })
+	k("BID_CREATE_EXAMPLE", bidA, one(bidA), func(m string) []byte { return txBidCreate(bidA, bidOwner.Addr, "thing", bidExample, olt5, bidFar, m) })
+	k("BID_CREATE_OFFER", bidB, one(bidB), func(m string) []byte { return txBidOffer(bidB, convB, olt7, m) })
+	k("BID_CONTER_OFFER", bidOwner, one(bidOwner), func(m string) []byte { return txBidCounter(bidOwner, convA, olt8, m) })
+	k("BID_CANCEL", bidA, one(bidA), func(m string) []byte { return txBidCancel(bidA, convA, m) })
+	k("BID_BIDDER_DECISION", bidB, one(bidB), func(m string) []byte { return txBidBidderDecision(bidB, convB, bidAccept, m) })
+	k("BID_BIDDER_DECISION_REJECT", bidB, one(bidB), func(m string) []byte { return txBidBidderDecision(bidB, convB, bidReject, m) })
+	k("BID_OWNER_DECISION", bidOwner, one(bidOwner), func(m string) []byte { return txBidOwnerDecision(bidOwner, convA, bidAccept, m) })
+	k("BID_OWNER_DECISION_REJECT", bidOwner, one(bidOwner), func(m string) []byte { return txBidOwnerDecision(bidOwner, convA, bidReject, m) })
+	// BID_EXPIRE is in the public router: "validatorAddress" is whoever signs (a funded account pays the fee)
+	k("BID_EXPIRE", v0.Stake, one(v0.Stake), func(m string) []byte { return txBidExpire(v0.Stake, convC, m) })
+	// the same about a conversation that IS due: the block hooks queue the internal expire transaction in
+	// the same block (it then finds the conversation closed)
+	k("BID_EXPIRE_DUE", v0.Stake, one(v0.Stake), func(m string) []byte { return txBidExpire(v0.Stake, convD, m) })
 	return l
 }
 
